@@ -37,7 +37,10 @@ where
 
       source.inner_subscribe(sctl.new_observer(
         move |_, _| {
-          if let Some(start_time) = *start_time_next.read().unwrap() {
+          // copy the mark out: no lock is held while the subscriber is called (it may
+          // feed the source again from its callback)
+          let previous = *start_time_next.read().unwrap();
+          if let Some(start_time) = previous {
             sctl_next.sink_next(start_time.elapsed());
           }
           *start_time_next.write().unwrap() = Some(Instant::now());
@@ -46,7 +49,8 @@ where
           sctl_error.sink_error(e);
         },
         move |serial| {
-          if let Some(start_time) = *start_time_complete.read().unwrap() {
+          let previous = *start_time_complete.read().unwrap();
+          if let Some(start_time) = previous {
             sctl_complete.sink_next(start_time.elapsed());
           }
           sctl_complete.sink_complete(&serial);
